@@ -10,7 +10,7 @@ from kern2 import fr_tok
 from remesh import Mesh
 
 SPEC = {
-    "lean_modules": ["Honeycomb.Props.C15", "Honeycomb.Props.C15b"],
+    "lean_modules": ["Honeycomb.Props.C15", "Honeycomb.Props.C15b", "Honeycomb.Props.C15c"],
     "gen": ["anchors"],
     "required_theorems": [
         "C15_swap_preserves_WF", "C15_cutOuter_preserves_WF", "C15_cutInner_preserves_WF", "C15_collapse_preserves_WF",
@@ -28,6 +28,11 @@ SPEC = {
         # Props/C15b.lean: the core clause at beta level on arbitrary WF maps, cells, collapse side conditions
         "C15_swap_topology", "C15_swap_faces_are_triangles", "C15_cutOuter_topology", "C15_cutInner_topology",
         "C15_cutOuter_cells", "C15_cut_midpoint_in_final_map", "C15_collapse_midpoint_interior",
+        # Props/C15c.lean: counts through the iterators, vertex cells after cut / swap, distinctness of the six darts
+        "C15_six_distinct", "C15_swap_counts", "C15_swap_face_count", "C15_swap_edge_count", "C15_swap_cells",
+        "C15_cutOuter_face_count", "C15_cutOuter_edge_count", "C15_cutOuter_vertex_count", "C15_cutOuter_vertices",
+        "C15_cutInner_face_count", "C15_cutInner_vertex_count", "C15_cutInner_faces", "C15_cutInner_vertices",
+        "C15_cutInner_cells", "C15_collapse_midpoint_face_count",
     ],
     "trusted_base": [
         "Lean 4.33 kernel; axioms propext, Classical.choice, Quot.sound only",
